@@ -18,6 +18,8 @@ runtime of the Lean driver (lean/Driver/Launcher.lean, `iterations`):
   RaiseProc(n)  - run                  error ValueError
   StepsProc(n)  - run s2 s3            outputs {'v': n}            (`run` -> Continue(s2) -> Continue(s3))
   WaitProc(n)   - run - s2             outputs {'v': n}            (`run` -> Wait(s2); the process resumes itself)
+  HoldProc(n)   - run - s2             outputs {'partial': n, 'final': n}   (`run` emits `partial` and Waits until the
+                                       ENVIRONMENT resumes it (then `s2` emits `final`) or kills it (KilledError))
   BadCtor(n)    constructor raises RuntimeError
 """
 from harness import common
@@ -26,6 +28,7 @@ common.ensure_repo_on_path()  # plumpy must come from $PLUMPY_REPO, whoever impo
 import plumpy  # noqa: E402
 
 TRACE = []
+INSTANCES = {}   # pid -> the latest HoldProc object with that pid (constructed or loaded), for the harness to kill / resume
 
 
 def _rec(proc, what):
@@ -101,14 +104,36 @@ class WaitProc(_Base):
         self.out('v', self.inputs.n)
 
 
+class HoldProc(_Base):
+    """emits an output, then waits until somebody else resumes or kills it"""
+
+    def on_create(self):
+        super().on_create()
+        INSTANCES[self.pid] = self
+
+    def load_instance_state(self, saved_state, load_context):
+        super().load_instance_state(saved_state, load_context)
+        INSTANCES[self.pid] = self
+
+    def run(self):
+        _rec(self, 'run')
+        self.out('partial', self.inputs.n)
+        return plumpy.Wait(self.s2, msg='hold')
+
+    def s2(self):
+        _rec(self, 's2')
+        self.out('final', self.inputs.n)
+
+
 class BadCtor(_Base):
     def __init__(self, *args, **kwargs):
         raise RuntimeError('constructor refused')
 
 
-CLASSES = {c.__name__: c for c in (OutProc, OutAlt, RaiseProc, StepsProc, WaitProc, BadCtor)}
+CLASSES = {c.__name__: c for c in (OutProc, OutAlt, RaiseProc, StepsProc, WaitProc, HoldProc, BadCtor)}
 # short class token of the line protocol <-> class
-TOKENS = {'Out': OutProc, 'Alt': OutAlt, 'Raise': RaiseProc, 'Steps': StepsProc, 'Wait': WaitProc, 'Bad': BadCtor}
+TOKENS = {'Out': OutProc, 'Alt': OutAlt, 'Raise': RaiseProc, 'Steps': StepsProc, 'Wait': WaitProc, 'Hold': HoldProc,
+          'Bad': BadCtor}
 TOKEN_OF = {v: k for k, v in TOKENS.items()}
 MODULE = __name__
 ALIAS_PREFIX = 'alias:'
@@ -129,39 +154,60 @@ class TracingDefaultLoader(plumpy.DefaultObjectLoader):
 
 
 class CustomLoader(plumpy.DefaultObjectLoader):
-    """A loader that differs observably from the default one, in both directions:
+    """A loader that differs observably from the default one, in both directions, and whose knowledge lives in the
+    INSTANCE (so that a default-constructed `CustomLoader()` — what plumpy makes of the loader class recorded in a
+    bundle — is not a substitute for the configured instance).  With `full=True` (see `make_custom`):
        * `alias:<Token>` identifiers exist only here (the default loader raises ValueError for them);
        * it identifies `OutProc` as `alias:Out`;
-       * the *default* identifier of `OutProc` is resolved to `OutAlt` (so using the wrong loader changes the outputs)."""
+       * the *default* identifier of `OutProc` is resolved to `OutAlt` (so using the wrong loader changes the outputs).
+    Without, it behaves like the default loader."""
     calls = []
+
+    def __init__(self, full=False):
+        self.full = full
 
     def load_object(self, identifier):
         CustomLoader.calls.append(identifier)
-        if identifier.startswith(ALIAS_PREFIX):
-            tok = identifier[len(ALIAS_PREFIX):]
-            if tok in TOKENS:
-                return TOKENS[tok]
-            raise ValueError(f'unknown alias {identifier}')
-        if identifier == default_ident(OutProc):
-            return OutAlt
+        if self.full:
+            if identifier.startswith(ALIAS_PREFIX):
+                tok = identifier[len(ALIAS_PREFIX):]
+                if tok in TOKENS:
+                    return TOKENS[tok]
+                raise ValueError(f'unknown alias {identifier}')
+            if identifier == default_ident(OutProc):
+                return OutAlt
         return super().load_object(identifier)
 
     def identify_object(self, obj):
-        if obj is OutProc:
+        if self.full and obj is OutProc:
             return ALIAS_PREFIX + 'Out'
         return super().identify_object(obj)
+
+
+def make_custom():
+    """the custom loader instance the harness configures"""
+    return CustomLoader(full=True)
 
 
 # ---- reference tables used by the monitors of harness/props/c17.py (independent of the Lean model) -------------------
 # user step executed in each `Process.step()` iteration (None = no user code), per class token
 PROGRAM = {'Out': [None, 'run'], 'Alt': [None, 'run'], 'Raise': [None, 'run'],
-           'Steps': [None, 'run', 's2', 's3'], 'Wait': [None, 'run', None, 's2']}
+           'Steps': [None, 'run', 's2', 's3'], 'Wait': [None, 'run', None, 's2'], 'Hold': [None, 'run', None, 's2']}
 
 
-def expected_outcome(tok, n, saved_tok=None, pos=0):
+def holds(tok, pos):
+    """a Hold process that has not got past its wait stays there until the environment acts"""
+    return tok == 'Hold' and pos <= 2
+
+
+def expected_outcome(tok, n, saved_tok=None, pos=0, act='~'):
     """what a process of class `tok` reports once terminated: ('out', {name: value}) or ('err', exception class name).
     Resumed from a checkpoint taken after `run` (pos >= 2) of a process constructed as `saved_tok`, the outputs are the
     persisted ones, i.e. those of `saved_tok`."""
+    if tok == 'Hold':
+        if holds(tok, pos) and act == 'kill':
+            return ('err', 'KilledError')       # killed while waiting: the error, not the partial outputs
+        return ('out', {'partial': n, 'final': n})
     if saved_tok is not None and pos >= 2:
         tok = saved_tok
     if tok == 'Raise':
@@ -171,8 +217,9 @@ def expected_outcome(tok, n, saved_tok=None, pos=0):
     return ('out', {'v': n})
 
 
-def remaining_steps(tok, pos):
-    return [s for s in PROGRAM[tok][pos:] if s is not None]
+def remaining_steps(tok, pos, act='~'):
+    prog = PROGRAM[tok][:2] if (holds(tok, pos) and act == 'kill') else PROGRAM[tok]
+    return [s for s in prog[pos:] if s is not None]
 
 
 def ident_of_token(tok):
@@ -188,7 +235,7 @@ def ident_of_token(tok):
 def ref_load(loader_kind, tok):
     """which class (token) the loader of that kind resolves the identifier token to; None = it raises ValueError"""
     kind, _, name = tok.partition('.')
-    if loader_kind == 'custom':
+    if loader_kind == 'custom':     # ('fresh' = a default-constructed CustomLoader: behaves like the default loader)
         if kind == 'a':
             return name if name in TOKENS else None
         if tok == 'd.Out':
